@@ -1922,7 +1922,9 @@ fn should_chain_be_broken<'source>(
     ctx: &'source FormatContext<'source>,
 ) -> bool {
     let mut chain_node = root_node;
-    let mut dot_access_count = 0;
+    // Counted in a usize: with the threshold disabled nothing ends the loop before the chain's end,
+    // and a u8 would overflow on chains with more than 255 counted accesses.
+    let mut dot_access_count: usize = 0;
     let mut last_node_was_access = false;
     let mut chain_line = 0;
 
@@ -1955,7 +1957,7 @@ fn should_chain_be_broken<'source>(
 
         // A threshold of 0 disables the threshold
         if ctx.options.chain_break_threshold > 0
-            && dot_access_count >= ctx.options.chain_break_threshold
+            && dot_access_count >= ctx.options.chain_break_threshold as usize
         {
             return true;
         }
